@@ -13,7 +13,7 @@
 #define S_MAXSAMPLES 64
 #define S_MAXB (S_MAXSAMPLES * 8)
 
-static const char *const class_names[] = { C2_COMMON_CLASS_NAMES, C2_PLANAR_CLASS_NAMES, NULL };
+static const char *const class_names[] = { C2_COMMON_CLASS_NAMES, C2_PLANAR_CLASS_NAMES, C2_FAULT_CLASS_NAMES, NULL };
 
 struct snd { int size; uint8_t m[S_MAXPL][S_MAXB], wild[S_MAXPL][S_MAXB]; };
 static struct snd snds[C2_MAXH];
@@ -79,7 +79,7 @@ static int op_snd_alloc(struct c2_ctx *c, char *what, size_t wn)
     int X = c2_new_area(c);
     struct ubuf *u = ubuf_sound_alloc(c->planar_mgr, size);
     snprintf(what, wn, "h%d=sound_alloc(%d)+fill [area a%d]", slot, size, X);
-    if (!u) { R("  %s -> NULL\n", what); FAIL("C02/domain/sound-alloc", "ubuf_sound_alloc(%d) failed", size); return -1; }
+    if (!u) { R("  %s -> NULL\n", what); DOMFAIL("C02/domain/sound-alloc", "ubuf_sound_alloc(%d) failed", size); return -1; }
     c2_planar_init(&c->h[slot], u, X);
     struct snd *p = &snds[slot];
     p->size = size;
@@ -109,7 +109,7 @@ static int op_snd_dup(struct c2_ctx *c, bool copy, char *what, size_t wn)
         u = ubuf_dup(c->h[s].u);
     }
     R("  %s -> %s\n", what, u ? "ok" : "NULL");
-    if (!u) { FAIL(copy ? "C02/domain/sound-copy" : "C02/domain/dup", "%s fails", what); return -1; }
+    if (!u) { DOMFAIL(copy ? "C02/domain/sound-copy" : "C02/domain/dup", "%s fails", what); return -1; }
     c2_planar_init(&c->h[slot], u, X);
     snds[slot] = snds[s];
     return slot;
@@ -130,7 +130,7 @@ static int op_snd_resize(struct c2_ctx *c, char *what, size_t wn)
     snprintf(what, wn, "sound_resize(h%d,%d,%d)", ai, aoff, ns);
     int err = ubuf_sound_resize(h->u, aoff, ns);
     R("  %s -> %d\n", what, err);
-    if (!ubase_check(err)) { FAIL("C02/domain/sound-resize", "%s on %d samples fails (shrinking is always possible)", what, p->size); return -1; }
+    if (!ubase_check(err)) { DOMFAIL("C02/domain/sound-resize", "%s on %d samples fails (shrinking is always possible)", what, p->size); return -1; }
     if (aoff < 0) CL(CL_NEGOFF);
     int n2 = ns == -1 ? rest : ns;
     if (off > 0 || n2 < p->size) CL(CL_CROPPED);
@@ -223,6 +223,8 @@ static int run(const uint8_t *tp_, size_t len, struct vp_report *rep, unsigned f
     for (int pl = 0; pl < np; pl++)
         if (!ubase_check(ubuf_sound_mem_mgr_add_plane(c->planar_mgr, chans[pl]))) return vp_internal(rep, "add_plane");
     R("C02/cow_sound config: pool_depth=%d sample_size=%d planes=%d align=%d\n", depth, ss, np, align);
+    c->faultmode = cfg >= 216;          /* (144..255 alias other configurations) */
+    if (c->faultmode) R("  [allocation faults]\n");
     c->hash = vp_hash_mix(c->hash, cfg);
     if (depth) CL(CL_POOL);
     if (align) CL(CL_ALIGN);
@@ -230,7 +232,8 @@ static int run(const uint8_t *tp_, size_t len, struct vp_report *rep, unsigned f
     int nops = 0;
     while (!tp_done(&c->t) && nops < maxops && !c->ret) {
         nops++;
-        unsigned code = optab[tp_u8(&c->t) % 32];
+        uint8_t opbyte = tp_u8(&c->t);
+        unsigned code = optab[opbyte % 32];
         bool anysnd = false, anyblock = false;
         for (int i = 0; i < C2_MAXH; i++) { if (c->h[i].kind == C2_PLANAR) anysnd = true; if (c->h[i].kind == C2_BLOCK) anyblock = true; }
         if (c2_nlive(c) == 0) code = P_ALLOC;
@@ -239,6 +242,7 @@ static int run(const uint8_t *tp_, size_t len, struct vp_report *rep, unsigned f
         c->hash = vp_hash_mix(c->hash, code);
         char what[200] = "";
         int hi;
+        c2_fault_begin(c, opbyte);
         switch (code) {
         case P_ALLOC: hi = op_snd_alloc(c, what, sizeof what); break;
         case P_DUP: hi = op_snd_dup(c, false, what, sizeof what); break;
@@ -248,6 +252,7 @@ static int run(const uint8_t *tp_, size_t len, struct vp_report *rep, unsigned f
         case P_REEXPORT: hi = op_reexport(c, what, sizeof what); break;
         default: hi = c2_block_op(c, code, what, sizeof what); break;
         }
+        hi = c2_fault_end(c, hi);
         if (hi >= 0 && !c->ret) c2_check_all(c, what);
     }
     for (int i = 0; i < C2_MAXH; i++) c2_release(c, i);
@@ -256,6 +261,7 @@ static int run(const uint8_t *tp_, size_t len, struct vp_report *rep, unsigned f
 
     rep->case_hash = c->hash;
     rep->classes = c->cl;
+    C2_FAULT_CLASSES(rep, c, 22);
     rep->nontrivial = (c->cl & (1u << CL_REEXPORT)) && (c->cl & ((1u << CL_REFUSED_SHARED) | (1u << CL_PLANAR_REFUSED))) &&
                       (c->cl & (1u << CL_GRANTED_AFTER_FREE));
     return c->ret;
